@@ -49,7 +49,11 @@ class RandomVectorizedStrategy(vb.VectorizedStrategy[None]):
 
     self._suggestion_batch_size = suggestion_batch_size
     self.n_feature_dimensions_with_padding = n_feature_dimensions_with_padding
-    self.n_feature_dimensions = n_feature_dimensions_with_padding
+    # Padded dimensions are not features: the optimizer masks them out.
+    self.n_feature_dimensions = types.ContinuousAndCategorical(
+        len(converter.output_specs.continuous),
+        len(converter.output_specs.categorical),
+    )
     self.dtype = types.ContinuousAndCategorical(jnp.float64, types.INT_DTYPE)
 
     self._categorical_logits = None
